@@ -337,7 +337,7 @@ pub fn run_body(ctx: &Ctx, rep: &mut Report) {
 // ---------------------------------------------------------------------------
 // Whole hashes through the public API (+ C08 laws)
 
-fn laws<V: Variant>(a: &[u8], b: &[u8], rep: &mut Report) {
+fn laws<V: Variant>(a: &[u8], b: &[u8], expect_max: bool, rep: &mut Report) {
     let case = || {
         Json::obj()
             .with("variant", V::NAME)
@@ -424,6 +424,18 @@ fn laws<V: Variant>(a: &[u8], b: &[u8], rep: &mut Report) {
     if eq != (a == b) {
         viol("equality", "hash equality disagrees with byte equality".to_string());
     }
+    if expect_max && (ddef != out[0].5 || dnl != out[1].5) {
+        // the antipodal construction (all dibits 0 vs 3, every checksum byte different, Q nibbles
+        // at ring distance 8, length codes at ring distance 128) has the maximum distance by the
+        // reference formula: this is the witness for "the bound is actually attained"
+        viol(
+            "max-not-attained",
+            format!(
+                "antipodal pair: d_Default = {} (max_distance {}), d_NoLength = {} (max_distance {})",
+                ddef, out[0].5, dnl, out[1].5
+            ),
+        );
+    }
     if ddef == 0 {
         rep.count("laws:zero_distance_pairs", 1);
     }
@@ -475,7 +487,8 @@ fn whole_one<V: Variant>(ctx: &Ctx, rep: &mut Report, do_laws: bool, do_model: b
     let n = ctx.n(1_000_000, 40_000_000) / if do_laws { 2 } else { 1 };
     for i in 0..n {
         let mut rng = ctx.rng("c02-whole", (V::INDEX as u64) << 48 | i);
-        let (a, b) = match rng.below(10) {
+        let kind = rng.below(10);
+        let (a, b) = match kind {
             0 => antipodal::<V>(&mut rng),
             1..=4 => {
                 let a = gen::hash_bytes(&mut rng, V::SIZE, V::CK, V::NB, strict());
@@ -491,7 +504,7 @@ fn whole_one<V: Variant>(ctx: &Ctx, rep: &mut Report, do_laws: bool, do_model: b
             pair_check::<V>(&a, &b, rep);
         }
         if do_laws {
-            laws::<V>(&a, &b, rep);
+            laws::<V>(&a, &b, kind == 0, rep);
         }
         let mut fp = a.clone();
         fp.extend_from_slice(&b);
@@ -525,7 +538,7 @@ pub fn run_laws(ctx: &Ctx, rep: &mut Report) {
     rep.floor("laws:zero_distance_pairs", 1);
     // the reference distance model obeys the same laws (guards the oracle)
     let mut rng = ctx.rng("c08-oracle", 0);
-    for _ in 0..20000 {
+    for _ in 0..(if ctx.scale < 0.2 { 20 } else { 20000 }) {
         let a = rng.bytes(35);
         let b = rng.bytes(35);
         let d = oracle::distance(&a, &b, 1, false);
@@ -542,7 +555,7 @@ pub fn run_laws(ctx: &Ctx, rep: &mut Report) {
 fn replay_pair<V: Variant>(name: &str, a: &[u8], b: &[u8], rep: &mut Report) {
     if name == V::NAME && a.len() == V::SIZE && b.len() == V::SIZE {
         pair_check::<V>(a, b, rep);
-        laws::<V>(a, b, rep);
+        laws::<V>(a, b, false, rep);
     }
 }
 
